@@ -153,3 +153,19 @@ Example ex_iter_run :
   | _ => False
   end.
 Proof. vm_compute. split; reflexivity. Qed.
+
+(* ---- correspondence: every __next__ call of the real TreeIterator vs the model ---- *)
+Fixpoint iter_trace (m : counts_mode) (ts : tseq) (it : titer) (n : nat) : res (list J) :=
+  match n with
+  | O => Ok []
+  | S n' =>
+      do '(it1, y) <- iter_next m ts it;
+      do rest <- iter_trace m ts it1 n';
+      Ok (JL [jbool y; obs_tree (it_tree it1)] :: rest)
+  end.
+
+Definition check_iter (ts : tseq) (forward : bool) (expected : list J) : bool :=
+  match iter_trace full ts (iter_new ts forward) (length expected) with
+  | Ok l => J_eqb (JL l) (JL expected)
+  | _ => false
+  end.
